@@ -1102,6 +1102,7 @@ type rtRet struct {
 	callbackReturns      []string
 	doScanWaits          []rtWait
 	flowRecognised       bool
+	storeCalls           [][3]string // (method of the visited store, number of call sites, guard)
 	// Start
 	startWaits            []rtWait
 	disableCond           string
@@ -1433,6 +1434,7 @@ func rtAnalyseRetention() *rtRet {
 		r.doScanWaits = append(r.doScanWaits, p.waits(cw.leaves, role)...)
 	}
 	r.flowRecognised = !w.unknown && cw != nil && !cw.unknown
+	r.storeCalls = p.storeCalls(r, storeField, w, cw)
 
 	// ------------------------------------------------------------------ Join
 	jw := rtWalkBody(p, jn.Body, nil)
@@ -1764,6 +1766,107 @@ func rtAnalyseRetention() *rtRet {
 	return r
 }
 
+// storeCalls: EVERY method of the visited store (the scanner field VisitMailboxes is called on, aliases and unexported helpers
+// followed) that DoScan and its visitor callback call, as (method, number of call sites, guard), sorted by method.  guard:
+//   once        reached unconditionally, outside every loop (VisitMailboxes)
+//   removeGuard the site the facts sweepLoop / removeGuard / removeArgs describe: inside the range loop over the snapshot, under
+//               exactly the date comparison
+//   always | conditional, with ":loop" when inside a loop — any other site
+// A use of the store field that is not the receiver of a method call (handed to a function that is not followed, stored, compared)
+// appears as ("<escapes>", n, "-"): then the list cannot be trusted to be complete.
+func (p *rtPkg) storeCalls(r *rtRet, storeField string, walks ...*rtWalk) [][3]string {
+	if storeField == "" {
+		return [][3]string{{"<unknown store field>", "0", "-"}}
+	}
+	count := map[string]int{}
+	guard := map[string]string{}
+	escapes := 0
+	for wi, w := range walks {
+		if w == nil {
+			continue
+		}
+		for i := range w.leaves {
+			l := &w.leaves[i]
+			sc := l.scope()
+			if sc == nil || isNilNode(sc) {
+				continue
+			}
+			recv := map[ast.Expr]bool{}   // occurrences of the store that are receivers of a method call
+			followed := map[ast.Expr]bool{} // … or arguments / receivers of a helper the walker follows
+			for _, ce := range rtCalls(sc) {
+				if fd, _ := p.helper(ce); fd != nil {
+					for _, a := range ce.Args {
+						followed[rtUnparen(a)] = true
+					}
+					if se, ok := rtUnparen(ce.Fun).(*ast.SelectorExpr); ok {
+						followed[rtUnparen(se.X)] = true
+					}
+					continue
+				}
+				se, ok := rtUnparen(ce.Fun).(*ast.SelectorExpr)
+				if !ok || p.field(se.X, l.env) != storeField {
+					continue
+				}
+				recv[rtUnparen(se.X)] = true
+				name := se.Sel.Name
+				count[name]++
+				g := "always"
+				if len(l.pc) > 0 {
+					g = "conditional"
+				}
+				if len(l.loops) > 0 {
+					g += ":loop"
+				}
+				switch {
+				case name == "VisitMailboxes" && len(l.pc) == 0 && len(l.loops) == 0:
+					g = "once"
+				case name == "RemoveMessage" && wi == 1 && r.removeCalls == 1 && r.sweepLoop == "rangeOverSnapshot" && r.removeGuard != "unknown" && r.removeOnVisitedStore:
+					g = "removeGuard"
+				}
+				if old, ok := guard[name]; ok && old != g {
+					g = "mixed"
+				}
+				guard[name] = g
+			}
+			// any other use of the store field in this leaf
+			ast.Inspect(sc, func(x ast.Node) bool {
+				if _, ok := x.(*ast.FuncLit); ok {
+					return false
+				}
+				e, ok := x.(ast.Expr)
+				if !ok {
+					return true
+				}
+				if _, isSel := e.(*ast.SelectorExpr); !isSel {
+					if _, isId := e.(*ast.Ident); !isId {
+						return true
+					}
+				}
+				if p.field(e, l.env) == storeField {
+					if !recv[e] && !followed[e] {
+						// the definition of a local alias (`ds := rs.ds`) is followed by resolve: not an escape
+						if as, ok := l.st.(*ast.AssignStmt); ok && len(as.Rhs) == 1 && rtUnparen(as.Rhs[0]) == e {
+							return false
+						}
+						escapes++
+					}
+					return false
+				}
+				return true
+			})
+		}
+	}
+	var res [][3]string
+	for n, c := range count {
+		res = append(res, [3]string{n, fmt.Sprint(c), guard[n]})
+	}
+	if escapes > 0 {
+		res = append(res, [3]string{"<escapes>", fmt.Sprint(escapes), "-"})
+	}
+	sort.Slice(res, func(i, j int) bool { return res[i][0] < res[j][0] })
+	return res
+}
+
 func rtBool(b bool) string {
 	if b {
 		return "true"
@@ -1785,6 +1888,14 @@ func extractRetention() {
 	g.def("sweepLoopExits", "Nat", fmt.Sprint(r.sweepLoopExits), "statements in the body of that loop that leave it (return, break out of it, goto, continue of an outer loop)")
 	g.def("removeGuard", "String", leanStr(r.removeGuard), "the whole path condition of the RemoveMessage call inside the loop body, if it is one Before/After comparison of <loop message>.Date() with the cutoff: dateBeforeCutoff (d.Before(c) or c.After(d)) | dateNotAfterCutoff | dateAfterCutoff | dateNotBeforeCutoff | unknown")
 	g.def("removeCalls", "Nat", fmt.Sprint(r.removeCalls), "RemoveMessage calls in DoScan and its callback (unexported helpers followed)")
+	{
+		var l []string
+		for _, c := range r.storeCalls {
+			l = append(l, "("+leanStr(c[0])+", "+c[1]+", "+leanStr(c[2])+")")
+		}
+		g.def("storeCalls", "List (String × Nat × String)", "["+strings.Join(l, ", ")+"]",
+			"EVERY method of the visited store (the scanner field VisitMailboxes is called on; local aliases and unexported helpers followed) that DoScan and its visitor callback call, as (method, number of call sites, guard), sorted by method; guard: once = reached unconditionally outside every loop | removeGuard = the site described by sweepLoop / removeGuard / removeArgs (inside the range loop over the snapshot, under exactly the date comparison) | always | conditional (\":loop\" appended inside a loop) | mixed; a use of the store that is not the receiver of a method call appears as (\"<escapes>\", n, \"-\")")
+	}
 	g.def("removeOnVisitedStore", "Bool", rtBool(r.removeOnVisitedStore), "RemoveMessage is called on the same scanner field VisitMailboxes is called on")
 	g.def("removeArgs", "String", leanStr(r.removeArgs), "mailboxAndIdOfLoopMessage: the arguments are (<loop message>.Mailbox(), <loop message>.ID())")
 	g.def("removeErrEffect", "String", leanStr(r.removeErrEffect), "what is reachable under `RemoveMessage's error != nil`: logOnly (logging chains, plain continue) | ignored | leavesLoop | returns | other | unknown")
